@@ -154,7 +154,7 @@ def handle (line : String) : String :=
         | some ts =>
           match Bptk.Py.parse ts with
           | none => true
-          | some p => !(decide (tmOfPy (Bptk.Py.erase p) = (compile M i).map (Tm.shape id)))
+          | some p => !(decide (tmOfPy nameIx (Bptk.Py.erase p) = (compile M i).map (Tm.shape id)))
       match bad with
       | [] => "ok"
       | i :: _ => s!"diff {i}"
